@@ -980,6 +980,10 @@ func c17CheckVersionTable(ctx *vfCtx, c c17VTCase) {
 		cell("canonical-json", impl.CheckCanonicalJSON([]byte(`{"a":[1.5]}`)) != nil, tr.CanonicalJSON)
 		cell("canonical-json", impl.CheckCanonicalJSON([]byte(`{"a":9007199254740992}`)) != nil, tr.CanonicalJSON)
 		cell("canonical-json", impl.CheckCanonicalJSON([]byte(`{"a":{"b":1e2}}`)) != nil, tr.CanonicalJSON)
+		// (the offending number nested, well-formed integers after it at the enclosing levels - as in every event)
+		cell("canonical-json", impl.CheckCanonicalJSON([]byte(`{"content":{"x":[{"y":1.5}],"z":2},"depth":7,"origin_server_ts":1700000000000}`)) != nil, tr.CanonicalJSON)
+		cell("canonical-json", impl.CheckCanonicalJSON([]byte(`{"content":{"x":-0},"depth":7}`)) != nil, tr.CanonicalJSON)
+		cell("canonical-json", impl.CheckCanonicalJSON([]byte(`{"unsigned":{"age":1.5},"depth":7}`)) != nil, tr.CanonicalJSON)
 		cell("canonical-json-integers", impl.CheckCanonicalJSON([]byte(`{"a":[1,-5,9007199254740991],"b":"1.5"}`)) != nil, false)
 	})
 	// ---- power-level parsing ----
